@@ -72,6 +72,9 @@ func (q *Query) smtOpt(withModel, ground bool) string {
 		if used[g+"!tag@0"] || used[g+"!data@0"] {
 			used[g+"!tag@0"], used[g+"!data@0"] = true, true
 			allocAx = append(allocAx, fmt.Sprintf("(and (> %s!tag@0 0) (> %s!data@0 0) (<= %s!data@0 alloc$top@entry))", g, g, g))
+			if tg := fx.eng.errGlobalTag[g]; tg != "" {
+				allocAx = append(allocAx, fmt.Sprintf("(= %s!tag@0 %s)", g, tg))
+			}
 			errData = append(errData, g+"!data@0")
 			used["alloc$top@entry"] = true
 		}
